@@ -1016,6 +1016,13 @@ impl<'comments> Formatter<'comments> {
     pub fn uint<'a>(&mut self, s: &'a str, base: &Base) -> Document<'a> {
         match base {
             Base::Decimal { numeric_underscore } if *numeric_underscore => {
+                // `0_1` is lexed with its leading zero; printed as `01` it would no longer be
+                // one number.
+                let s = match s.trim_start_matches('0') {
+                    "" => "0",
+                    trimmed => trimmed,
+                };
+
                 let s = s
                     .chars()
                     .rev()
